@@ -2,6 +2,8 @@
  * pthread/libc layer scripted through --wrap.
  *   c20_wrap info                      -> "<pagesize> <PTHREAD_STACK_MIN> <glibc>"
  *   c20_wrap codes|stack|timed < cases -> one result line per case
+ *   stack cases: "st page psm rl flag req" (uv_thread_create_ex), "tc page psm rl" (uv_thread_create),
+ *   "ts page psm rl" (uv__thread_stack_size directly); rl = F (getrlimit fails) or the soft limit
  * Every case runs in a forked child so that abort() is an observable result. */
 #include <stdio.h>
 #include <stdlib.h>
@@ -134,6 +136,8 @@ int __wrap_pthread_cond_timedwait(pthread_cond_t* c, pthread_mutex_t* m, const s
 
 /* ---- cases ------------------------------------------------------------ */
 static size_t inthread_size; static int inthread_ok;
+struct entry_ctx { int ran, arg_ok, finished; };
+static struct entry_ctx ectx;
 static void stack_entry(void* arg) {
   pthread_attr_t a; size_t sz = 0; void* addr;
   volatile char probe[256];
@@ -142,7 +146,9 @@ static void stack_entry(void* arg) {
     if (pthread_attr_getstack(&a, &addr, &sz) == 0) { inthread_size = sz; inthread_ok = 1; }
     pthread_attr_destroy(&a);
   }
-  *(int*) arg += 1;
+  ectx.ran += 1;
+  ectx.arg_ok = (arg == (void*) &ectx);      /* the given argument */
+  ectx.finished = 1;
 }
 
 static void codes_case(char* line) {
@@ -197,21 +203,30 @@ static void stack_case(char* line) {
     printf("%zu\n", uv__thread_stack_size());
     return;
   }
+  if (!strcmp(kind, "tc")) {            /* uv_thread_create(): no options at all */
+    if (sscanf(line, "%*s %lld %llu %63s", &page, &psm, rl) != 3) { printf("bad\n"); return; }
+    flag = -1; req = 0;
+  } else
   if (sscanf(line, "%*s %lld %llu %63s %d %llu", &page, &psm, rl, &flag, &req) != 5) { printf("bad\n"); return; }
   {
-    uv_thread_t t; uv_thread_options_t o; int ran = 0, rc;
+    uv_thread_t t; uv_thread_options_t o; int ran, rc, join_ok = 1;
     g_page = page;
     if (rl[0] == 'F') rl_mode = 1; else { rl_mode = 2; rl_value = strtoull(rl, NULL, 10); }
     o.flags = flag ? UV_THREAD_HAS_STACK_SIZE : UV_THREAD_NO_FLAGS;
     o.stack_size = (size_t) req;
     captured_set = 0; captured_stack = 0; inthread_ok = 0;
-    rc = uv_thread_create_ex(&t, &o, stack_entry, &ran);
-    if (rc == 0) uv_thread_join(&t);
+    memset(&ectx, 0, sizeof ectx);
+    if (flag < 0) rc = uv_thread_create(&t, stack_entry, &ectx);
+    else rc = uv_thread_create_ex(&t, &o, stack_entry, &ectx);
+    if (rc == 0) { int jr = uv_thread_join(&t); join_ok = (jr == 0 && ectx.finished); }   /* join returns after the entry finished */
+    ran = ectx.ran;
     /* <size applied (0 = no attribute)> <rc> <entry runs> <size seen by pthread_getattr_np in the thread> */
     /* "einval" = refused before anything was set up (no attribute, no thread) */
     if (!captured_set && rc == UV_EINVAL && !ran) printf("einval %d %d ", rc, ran);
     else printf("%zu %d %d ", captured_set ? captured_stack : (size_t) 0, rc, ran);
-    if (inthread_ok) printf("%zu\n", inthread_size); else printf("-\n");
+    if (inthread_ok) printf("%zu", inthread_size); else printf("-");
+    /* <entry got the given argument> <uv_thread_join returned 0 after the entry finished> */
+    printf(" %d %d\n", ran ? ectx.arg_ok : 1, join_ok);
   }
 }
 
